@@ -228,13 +228,6 @@ func (h *Handler) commit() error {
 			h.tempFile.fp = nil
 		}
 
-		if Exists(h.path) {
-			verifPoint("commit.remove_orig", h.path)
-			if err := os.Remove(h.path); err != nil {
-				return err
-			}
-		}
-
 		verifPoint("commit.rename", h.path)
 		if err := os.Rename(h.tempFile.path, h.path); err != nil {
 			return err
